@@ -142,6 +142,8 @@ class SSHChannel(Generic[AnyStr], SSHPacketHandler):
 
         self._request_queue: List[Tuple[str, SSHPacket, bool]] = []
 
+        self._servicing_requests = False
+
         self._open_waiter: Optional[asyncio.Future[SSHPacket]] = None
         self._request_waiters: List[asyncio.Future[bool]] = []
 
@@ -441,19 +443,38 @@ class SSHChannel(Generic[AnyStr], SSHPacketHandler):
     def _service_next_request(self) -> None:
         """Process next item on channel request queue"""
 
-        request, packet, _ = self._request_queue[0]
+        if self._servicing_requests:
+            # The loop below will pick up the next request
+            return
 
-        name = '_process_' + map_handler_name(request) + '_request'
-        handler = cast(_RequestHandler, getattr(self, name, None))
+        self._servicing_requests = True
 
-        if handler:
-            result = cast(Optional[bool], handler(packet))
-        else:
-            self.logger.debug1('Received unknown channel request: %s', request)
-            result = False
+        try:
+            # Loop here rather than recursing through _report_response,
+            # so a long queue of requests can't exhaust the stack
+            while self._request_queue:
+                pending = len(self._request_queue)
 
-        if result is not None:
-            self._report_response(result)
+                request, packet, _ = self._request_queue[0]
+
+                name = '_process_' + map_handler_name(request) + '_request'
+                handler = cast(_RequestHandler, getattr(self, name, None))
+
+                if handler:
+                    result = cast(Optional[bool], handler(packet))
+                else:
+                    self.logger.debug1('Received unknown channel request: %s',
+                                       request)
+                    result = False
+
+                if result is not None:
+                    self._report_response(result)
+
+                if len(self._request_queue) == pending:
+                    # The response will be reported later
+                    break
+        finally:
+            self._servicing_requests = False
 
     def _report_response(self, result: bool) -> None:
         """Report back the response to a previously issued channel request"""
